@@ -1,6 +1,7 @@
 package props
 
 import (
+	"encoding/json"
 	"fmt"
 	"strings"
 	"time"
@@ -68,11 +69,20 @@ func genC04(seed uint64, run int, tier string) Scenario {
 		parents = treeTable[run%len(treeTable)]
 	}
 	tree := g.tree(len(parents), pick(r, 0, 30, 60), parents)
+	twinA, twinB := "", ""
+	if r.IntN(4) == 0 {
+		// two sibling levels that show the same prompt: told apart only by the level the driver
+		// remembers having acquired, so the session never starts in one of them
+		twinA, twinB = g.addTwin(tree)
+	}
 	sc.Privs = tree.Specs
 	sc.DefaultPriv = tree.Default
 	sc.Secondary = tree.Secret
 	sc.Dev.Modes = tree.Modes
 	sc.Dev.Start = tree.Names[r.IntN(len(tree.Names))]
+	for twinA != "" && (sc.Dev.Start == twinA || sc.Dev.Start == twinB) {
+		sc.Dev.Start = tree.Names[r.IntN(len(tree.Names))]
+	}
 	def := tree.ByName[tree.Default]
 	cfg := tree.ByName["configuration"]
 	nops := between(r, 3, 10)
@@ -147,7 +157,39 @@ func genC04(seed uint64, run int, tier string) Scenario {
 	}
 	sc.Ops = append(sc.Ops, OpSpec{Kind: "close"})
 	sc.Class = fmt.Sprintf("network/tree%d", len(parents))
+	if twinA != "" {
+		sc.Class += "/twin"
+	}
 	sc.CutEnum = pickCutEnum(run, 8)
+	if r.IntN(6) == 0 {
+		// an earlier connection of the same process to a device with another host name: the caller
+		// keeps one set of privilege level objects (and interactive events), edits the patterns for
+		// the device at hand and hands the same objects to the next driver
+		b, _ := json.Marshal(sc)
+		prior := &Session{}
+		_ = json.Unmarshal(b, prior)
+		const pfx = "q9"
+		for _, m := range prior.Dev.Modes {
+			if strings.HasPrefix(m.Prompt, g.host) {
+				m.Prompt = pfx + m.Prompt
+			}
+		}
+		for i := range prior.Privs {
+			prior.Privs[i].Pattern = strings.Replace(prior.Privs[i].Pattern, `(?im)^`, `(?im)^`+pfx, 1)
+		}
+		if len(prior.Ops) > 3 {
+			prior.Ops = append(prior.Ops[:2:2], OpSpec{Kind: "close"})
+		}
+		prior.CutEnum = false
+		for i := range prior.Ops {
+			if prior.Ops[i].Kind == "netinteractive" {
+				prior.Ops[i].ShareKey = fmt.Sprintf("events-%d", i)
+				sc.Ops[i].ShareKey = prior.Ops[i].ShareKey
+			}
+		}
+		prior.SharePrivs, sc.SharePrivs = true, true
+		sc.Prior = prior
+	}
 
 	return sc
 }
